@@ -577,6 +577,8 @@ func runServe(c serveCase) (serveObs, error) {
 type matchCase struct {
 	cwd, root string
 	tries     []tryFile
+	policy    byte // '0' first_exist, '1' first_exist_fallback, 'L', 'S', 'M'
+	splits    []string
 	fallback  bool
 	path      string
 	tree      map[string]kind
@@ -600,9 +602,17 @@ func runMatch(c matchCase) (matchObs, error) {
 	for _, t := range c.tries {
 		mf.TryFiles = append(mf.TryFiles, t.raw())
 	}
-	if c.fallback {
+	switch c.policy {
+	case '1':
 		mf.TryPolicy = "first_exist_fallback"
+	case 'L':
+		mf.TryPolicy = "largest_size"
+	case 'S':
+		mf.TryPolicy = "smallest_size"
+	case 'M':
+		mf.TryPolicy = "most_recently_modified"
 	}
+	mf.SplitPath = append([]string{}, c.splits...)
 	if err := mf.Provision(cctx); err != nil {
 		return matchObs{}, err
 	}
@@ -918,23 +928,39 @@ func (prop) Run(line string) core.Outcome {
 	case "site":
 		return runSite(f)
 	case "matchfile":
-		if len(f) != 7 {
+		if len(f) != 7 && len(f) != 8 {
 			return bad()
 		}
 		var c matchCase
 		var e [3]error
-		var ok1, ok2, ok3 bool
-		var bits []bool
+		var ok1, ok3 bool
 		c.cwd, e[0] = core.UnHex(f[1])
 		c.root, e[1] = core.UnHex(f[2])
 		c.tries, ok1 = parseTries(f[3])
-		bits, ok2 = parseBits(f[4], 1)
 		c.path, e[2] = core.UnHex(f[5])
 		c.tree, ok3 = parseTree(f[6])
-		if e[0] != nil || e[1] != nil || e[2] != nil || !ok1 || !ok2 || !ok3 || !validCwd(c.cwd) {
+		if e[0] != nil || e[1] != nil || e[2] != nil || !ok1 || !ok3 || !validCwd(c.cwd) || len(f[4]) != 1 || !strings.Contains("01LSM", f[4]) {
 			return bad()
 		}
-		c.fallback = bits[0]
+		c.policy = f[4][0]
+		c.fallback = c.policy == '1'
+		if len(f) == 8 {
+			sp, ok := parseList(f[7])
+			if !ok {
+				return bad()
+			}
+			for _, x := range sp {
+				if x == "" {
+					return bad()
+				}
+				for i := 0; i < len(x); i++ {
+					if x[i] >= 0x80 {
+						return bad()
+					}
+				}
+			}
+			c.splits = sp
+		}
 		obs, err := runMatch(c)
 		if err != nil {
 			return core.Outcome{Impl: "harness-error", Tags: []string{"harness-error"},
